@@ -390,7 +390,7 @@ func init() {
 // empty), and a GET on <apiPath>test/model is then routed to the resource
 // test.model by the real apiHandler; hrefs carry the same prefix.
 func VF_C16_K2_APIPath() {
-	cands := []string{"", "/api", "/api/", "/", "/v1/api", "/v1/api/", "/a"}
+	cands := []string{"", "/api", "/api/", "/", "/v1/api", "/v1/api/", "/a", "/v1.0/", "/v1.0/api"}
 	in := cands[zzvf.Choose("apipath", len(cands))]
 	// one more symbolic byte in front of the (optional) trailing slash
 	b := zzvf.Byte("b")
@@ -425,4 +425,16 @@ func VF_C16_K2_APIPath() {
 		}
 	}
 	zzvf.Assert(found, "resource-path-under-the-apipath-reaches-the-resource")
+	// a call (POST) under the same prefix is routed as well
+	w2 := vfNewWorld(cfg)
+	rec2, cl2 := w2.vfHTTP("POST", want+"test/model/act", "", "", http.Header{})
+	w2.settle()
+	zzvf.Assert(cl2 != nil && rec2.status == 0, "call-path-under-the-apipath-is-routed")
+	found = false
+	for _, q := range w2.mq.reqs {
+		if q.subject == "access.test.model" {
+			found = true
+		}
+	}
+	zzvf.Assert(found, "call-path-under-the-apipath-reaches-the-resource")
 }
